@@ -353,6 +353,14 @@ var _ = ssa.Value(nil)
 // chord, nil)) is folded and the note numbers compared with the checker's own resolution of the symbol (parent first,
 // sizes from the notation): bass = 48, tones = 60 + size. For four symbols the same is done in all 28 keys on four roots
 // with four basses (pitch = 60 + tonic + root + interval, bass an octave lower). ok=false when something does not fold.
+func (c *Ctx) chordPipelineVerdict() (string, int, bool) {
+	if c.chordPipeFold == nil {
+		p, n, ok := c.chordPipelineByFolding()
+		c.chordPipeFold = &foldVerdict{p, n, ok}
+	}
+	return c.chordPipeFold.problem, c.chordPipeFold.n, c.chordPipeFold.ok
+}
+
 func (c *Ctx) chordPipelineByFolding() (string, int, bool) {
 	debug := os.Getenv("CRDCHECK_DEBUG") != ""
 	chords, attrs, okD := c.loadDictionaries()
